@@ -330,6 +330,20 @@ class ClimatologyCheck(Case):
                                 m["tlo"], m["thi"] = m["thi"], m["tlo"]
                             ms2.append(m)
                         yield {"n": n, "x": list(xs), "z": list(zs), "t": ts, "members": ms2}
+        # float32 values and depths sitting on span bounds that float32 cannot hold exactly
+        import numpy as np
+
+        f32 = lambda v: float(np.float32(v))  # noqa: E731
+        mm = member(days[1], days[3])
+        mm.update({"vlo": 0.1, "vhi": 20.1})
+        if hf:
+            mm.update({"flo": -1.7, "fhi": 30.1})
+        if hz:
+            mm.update({"zlo": 0.3, "zhi": 10.1})
+        xs = [f32(20.1), f32(0.1), f32(30.1), f32(-1.7), 5.0]
+        zs = [5.0, 5.0, f32(10.1), f32(0.3), f32(10.1)]
+        tt = [days[2]] * 5 if p is None else [days[1] + 86400 * 20] * 5
+        yield {"n": 5, "x": xs, "z": zs, "t": tt, "members": [mm], "dtype": "float32", "dtype_z": "float32", "keep": 1}
 
 
 def cases():
